@@ -233,7 +233,7 @@ Qed.
 (* smtp.Client.tls = true only on a connection whose handshake completed, at the time Client.auth runs *)
 
 Definition Pns : forall B, prim B -> bool :=
-  fun B p => match p with PSetScTls | PHandshake | PConnect _ => false | _ => true end.
+  fun B p => match p with PSetScTls | PHandshake | PConnect _ _ => false | _ => true end.
 
 Lemma Pw_Pns : forall S B (p : prim B), Pw S B p = true -> Pns B p = true.
 Proof. intros S B p; destruct p; simpl; auto. Qed.
@@ -243,6 +243,12 @@ Lemma prim_sctls_false : forall B (p : prim B) w, Pns B p = true ->
 Proof.
   intros B p w HP H. destruct p; simpl in HP; try discriminate; prim_cases; auto;
     try (rewrite do_close_cs; assumption).
+Qed.
+
+Lemma prim_ctls_false : forall B (p : prim B) w, Pns B p = true ->
+  ctls (w_conn w) = false -> ctls (w_conn (snd (run_prim p w))) = false.
+Proof.
+  intros B p w HP H. destruct p; simpl in HP; try discriminate; prim_cases; auto.
 Qed.
 
 Lemma sat_ns_new_client : sat Pns _ (new_client false).
@@ -298,11 +304,11 @@ Lemma np_quit : nonpass VQuit = true. Proof. reflexivity. Qed.
 
 Lemma dial_rest_password : forall fuel cfg w r w',
   c_ssl cfg = false -> c_custom cfg = None -> Dial.is_localhost (c_host cfg) = false -> noenc_type (c_auth cfg) = false ->
-  opened (w_conn w) = true -> sc_tls (w_cs w) = false -> AllowedInv nonpass w ->
+  opened (w_conn w) = true -> ctls (w_conn w) = false -> sc_tls (w_cs w) = false -> AllowedInv nonpass w ->
   run (dial_rest fuel cfg) w = (r, w') ->
   AllowedInv nonpass w'.
 Proof.
-  intros fuel cfg w r w' Hs Hc Hl Hn Ho Hf HA H. unfold dial_rest in H. rewrite Hs in H.
+  intros fuel cfg w r w' Hs Hc Hl Hn Ho Hct Hf HA H. unfold dial_rest in H. rewrite run_conntls in H. rewrite Hct in H.
   sx H. allowed_of nonpass (sat_any_new_client nonpass false) E HA.
   inv_of prim_opened E. specialize (HI Ho). sctls_of sat_ns_new_client E Hf.
   destruct a as [u | e]; [ | simpl in H; inversion H; subst; assumption ].
@@ -345,7 +351,7 @@ Proof.
     sx H. pose proof (connect2_spec _ _ _ _ E H0) as Hcn. clear E.
     destruct a as [e | ].
     + simpl in H. inversion H; subst. destruct Hcn as [_ [Ht _]]. unfold AllowedInv in *. rewrite Ht. exact HA.
-    + destruct Hcn as (Ho & _ & _ & _ & Ht & Hcs).
+    + destruct Hcn as (Ho & _ & _ & Hct & Ht & Hcs). rewrite Hs in Hct.
       assert (HA0 : AllowedInv nonpass w0) by (unfold AllowedInv in *; rewrite Ht; exact HA).
       assert (Hf0 : sc_tls (w_cs w0) = false) by (rewrite Hcs; exact Hf).
       sx H. allowed_of nonpass (sat_any_arm_opt nonpass cfg) E HA0.
@@ -353,6 +359,10 @@ Proof.
       assert (Hf1 : sc_tls (w_cs w1) = false).
       { assert (Sa : sat Pns _ (arm_opt cfg)) by (unfold arm_opt; sat_tac).
         pose proof (sat_run_inv _ (fun w => sc_tls (w_cs w) = false) prim_sctls_false _ _ Sa w0 Hf0) as X.
+        rewrite E in X. exact X. }
+      assert (Hct1 : ctls (w_conn w1) = false).
+      { assert (Sa : sat Pns _ (arm_opt cfg)) by (unfold arm_opt; sat_tac).
+        pose proof (sat_run_inv _ (fun w => ctls (w_conn w) = false) prim_ctls_false _ _ Sa w0 Hct) as X.
         rewrite E in X. exact X. }
       eapply dial_rest_password; eauto.
 Qed.
